@@ -578,7 +578,7 @@ func c12R5(p *Prog, r *Report, sites []*relaySite) {
 		r.Check(n >= 1, rule, fc.Name+":re-arms", p.posStr(fc.Body.Pos()), "the uplink refreshes the NAT timeout on client traffic", "the uplink never refreshes the NAT timeout: sessions are evicted while the client is still sending")
 	}
 	// the premise of the context re-check: the service manager cancels the context before it stops services
-	run := p.Func("service", "Manager", "Run")
+	run := p.Inlined(p.Func("service", "Manager", "Run"))
 	var cancelled []int
 	for _, v := range run.G.V {
 		if v.Node == nil {
